@@ -40,6 +40,8 @@ func main() {
 		oracle(os.Args[2:])
 	case "replay":
 		replay(os.Args[2:])
+	case "srvcorr": // phase 5: the server's validate operation against the extracted store model (srvcorr.go)
+		srvcorr(os.Args[2:])
 	default:
 		fmt.Fprintln(os.Stderr, "unknown mode")
 		os.Exit(2)
@@ -142,6 +144,14 @@ func buildFile(fc fileCase) (f *ach.File, panicked any) {
 			return g, nil
 		}
 		return genValidFile(fc), nil
+	case "readercut": // phase 5: the Reader stopped by a caller-set line limit (SetMaxLines(Seed)): Read returns ErrFileTooLong before File.IsADV
+		text, _ := hex.DecodeString(fc.TextHex)
+		r := ach.NewReader(bytes.NewReader(text))
+		r.SetMaxLines(int(fc.Seed))
+		file, _ := r.Read()
+		return &file, nil
+	case "newbatch": // phase 5: NewFile + AddBatch(NewBatch(header with this SEC code)) for the SEC codes in Name, nothing else
+		return newBatchFile(strings.Split(fc.Name, ",")), nil
 	case "gentext": // the same file written out and read back by the Reader under the case's options
 		g := genValidFile(fc)
 		text, err := gen.Text(g, fc.Seed&1 == 0)
@@ -550,7 +560,7 @@ func kindClass(kind string) string {
 	switch kind {
 	case "reader", "gentext":
 		return "reader"
-	case "api", "api-adv", "api-padded", "gen", "genmut":
+	case "api", "api-adv", "api-padded", "gen", "genmut", "newbatch":
 		return "api"
 	}
 	return kind
